@@ -73,7 +73,13 @@ func VerifH_C05_Repeat() {
 	o2 := hEvalExpr(e, doc)
 	verifThaw()
 	verifAssert(e.String() == before, "printed-form-unchanged")
-	if t != `$shuffle([n])` {
+	switch t {
+	case `$shuffle([n])`:
+		// sanctioned variation
+	case `*`, `**`, `$keys(o)`, `$spread(o)`, `$each(o, function($v,$k){$k})`:
+		// the member order of objects is unspecified: compare as multisets
+		verifAssert(hSameOutcomeUnordered(o1, o2), "same-outcome-on-repeat")
+	default:
 		verifAssert(hSameOutcome(o1, o2), "same-outcome-on-repeat")
 	}
 }
@@ -103,4 +109,90 @@ func VerifH_C05_History() {
 	verifAssert(hSameOutcome(fresh, after), "outcome-independent-of-history")
 	e3, _ := Compile(p[0])
 	verifAssert(hSameOutcome(fresh, hEvalExpr(e3, doc)), "outcome-independent-of-history-fresh-expr")
+}
+
+func hSameOutcomeUnordered(x, y hOutcome) bool {
+	if x.kind != y.kind {
+		return false
+	}
+	if x.kind != oValue {
+		return hSameOutcome(x, y)
+	}
+	xs, ok1 := x.val.([]interface{})
+	ys, ok2 := y.val.([]interface{})
+	if !ok1 || !ok2 {
+		if a, ok := x.val.([]string); ok {
+			b, ok := y.val.([]string)
+			if !ok || len(a) != len(b) {
+				return false
+			}
+			for _, s := range a {
+				found := false
+				for _, t := range b {
+					if s == t {
+						found = true
+					}
+				}
+				if !found {
+					return false
+				}
+			}
+			return true
+		}
+		return hSameOutcome(x, y)
+	}
+	if len(xs) != len(ys) {
+		return false
+	}
+	used := make([]bool, len(ys))
+	for _, a := range xs {
+		found := false
+		for j, b := range ys {
+			if !used[j] && reflect.DeepEqual(hNorm(a), hNorm(b)) {
+				used[j] = true
+				found = true
+				break
+			}
+		}
+		if !found {
+			return false
+		}
+	}
+	return true
+}
+
+// VerifH_C05_Inputs: the outcome for input d does not depend on which inputs the same compiled
+// expression evaluated before (compare with a freshly compiled expression).
+func VerifH_C05_Inputs() {
+	templates := []string{
+		`n > 0 ? $big := n : $big`, `[$v, $v := n]`, `($x := n; $x)`, `$f := function($a){$a + n}`, `n`, `arr[n]`, `$count(arr)`, `s & "x"`, `n ~> $power(2)`,
+		`s ~> $replace("a", "X", 2)`, `s ~> $substring(0, 1)`, `arr ~> $map(function($v){$v})`, `{"k": n}`, `a.b`, `$exists(n) ? n : "none"`, `n ~> $pad(3, "x")`,
+	}
+	t := templates[verifChoose(len(templates))]
+	verifNote(t)
+	e1, err1 := Compile(t)
+	e2, err2 := Compile(t)
+	if err1 != nil || err2 != nil {
+		verifFail("c05-template-compiles")
+		return
+	}
+	mk := func(pos bool) map[string]interface{} {
+		d := map[string]interface{}{"s": "banana", "arr": []interface{}{1.0, 2.0}, "a": map[string]interface{}{"b": 1.0}}
+		n := hFinite()
+		if pos {
+			verifAssume(n > 0)
+			d["n"] = n
+		} else if verifBool() {
+			verifAssume(n <= 0)
+			d["n"] = n
+		}
+		return d
+	}
+	docA, docB := mk(true), mk(false)
+	before := e1.String()
+	_ = hEvalExpr(e1, docA)
+	verifAssert(e1.String() == before, "printed-form-unchanged-after-first-input")
+	after := hEvalExpr(e1, docB)
+	fresh := hEvalExpr(e2, docB)
+	verifAssert(hSameOutcome(after, fresh), "outcome-independent-of-earlier-inputs")
 }
